@@ -7,7 +7,7 @@ from __future__ import annotations
 import itertools
 import json
 import sys
-from typing import Any, Callable, Dict, List, Optional, Tuple
+from typing import Any, Callable, Dict, List, Optional, Tuple, Union
 
 from .. import infra
 from .. import world  # noqa
@@ -22,7 +22,8 @@ RULE = (
     "worlds = conversion graph (single deserializer+serializer, chain of two, two deserializers in both registration "
     "orders, generic Wrapper[T] <-> List[T], generic Box[T] <-> T (bare type variable end; registered and dynamic; T in "
     "{int, str, List[int], dataclass, Optional[int]}; under T / List / Dict), collection-like class with a registered conversion under a dynamic / field conversion "
-    "on its elements, constraints declared next to a field / dynamic conversion (schema agreement), lazy registration, inherited / non-inherited serializer on a subclass, "
+    "on its elements, constraints declared next to a field / dynamic conversion (schema agreement), locality of a dynamic conversion "
+    "with NamedTuple / TypedDict / dataclass objects under T / List / Optional / Dict / Union / Tuple, lazy registration, inherited / non-inherited serializer on a subclass, "
     "catch_value_error converter, class with schema()/type_name annotations) x placement (registered, dynamic "
     "conversion=, Annotated, field metadata, default_conversion function, identity bypass) x source type in {int, str, "
     "List[int], dataclass} x context in {T, List, Optional, Dict, Tuple, Union, object field, object field holding a "
@@ -344,6 +345,16 @@ class Drawing:
     outline: PtPath = field(metadata=conversion(serialization=pt_to_str, deserialization=pt_from_str))
     raw: PtPath = field(default_factory=PtPath)
 
+class TagNT(NamedTuple):
+    tag: str
+    n: int = 0
+class TagTD(TypedDict):
+    tag: str
+@dataclass
+class TagDC:
+    tag: str = ""
+def tag_from_int(x: int) -> str: return "t" + str(x)
+def tag_to_int(s: str) -> int: return len(s)
 def str_from_int(x: int) -> str: return str(x)
 def int_to_str(x: int) -> str: return str(x)
 @dataclass
@@ -614,7 +625,51 @@ def special_worlds(st: infra.Stats):
         sys.modules.pop(m.__name__, None)
         apischema.cache.reset()
     _guard('constraints next to a conversion', _sec_8)
-    st.count("special_worlds", 11)
+    def _sec_9():  # a dynamic conversion goes through containers and unions, never into the fields of an object
+        m = exec_source(PRELUDE + SPECIAL)
+        objs = (("NamedTuple", m.TagNT, lambda d: m.TagNT(**d)), ("TypedDict", m.TagTD, lambda d: dict(d)), ("dataclass", m.TagDC, lambda d: m.TagDC(**d)))
+        wraps = (
+            ("T", lambda X: X, lambda d: d),
+            ("List", lambda X: List[X], lambda d: [d]),
+            ("Optional", lambda X: Optional[X], lambda d: d),
+            # (no Dict[str, X]: its keys are str, to which the conversion rightly applies)
+            ("Union", lambda X: Union[X, bool], lambda d: d),
+            ("Tuple", lambda X: Tuple[X, bool], lambda d: [d, True]),
+        )
+        for oname, O, mk in objs:
+            for wname, wt, wd in wraps:
+                T_ = wt(O)
+                for d0 in ({"tag": "a"}, {"tag": 1}, {}):
+                    d = wd(d0)
+                    st.case("conversion_locality", oname, wname, repr(d0))
+                    a = run(lambda: deserialize(T_, d, conversion=m.tag_from_int))
+                    b = run(lambda: deserialize(T_, d))
+                    if a != b:
+                        viol("conversion_locality", f"deserialize({wname}[{oname}], {d!r}, conversion=int->str) = {a} but without the conversion {b}: the conversion reached a field of a nested object", object=oname, direction="deserialize")
+                v = wd(mk({"tag": "abc"})) if wname != "Tuple" else (mk({"tag": "abc"}), True)
+                if wname == "List":
+                    v = [mk({"tag": "abc"})]
+                elif wname in ("T", "Optional", "Union"):
+                    v = mk({"tag": "abc"})
+                a = run(lambda: serialize(T_, v, conversion=m.tag_to_int))
+                b = run(lambda: serialize(T_, v))
+                if a != b:
+                    viol("conversion_locality", f"serialize({wname}[{oname}], conversion=str->int) = {a} but without the conversion {b}", object=oname, direction="serialize")
+                for fn, conv in ((deserialization_schema, m.tag_from_int), (serialization_schema, m.tag_to_int)):
+                    a, b = run(lambda: fn(T_, conversion=conv)), run(lambda: fn(T_))
+                    if a != b:
+                        viol("conversion_locality_schema", f"{fn.__name__}({wname}[{oname}], conversion=...) = {a} != {b}", object=oname)
+        # the leaf itself is converted through the same containers (the conversion does reach through them)
+        for wname, wt, wd in wraps[:3]:
+            st.case("conversion_locality", "leaf", wname)
+            a = run(lambda: deserialize(wt(str), wd(3), conversion=m.tag_from_int))
+            exp = {"T": "t3", "List": ["t3"], "Optional": "t3"}[wname]
+            if a != ("ok", exp):
+                viol("conversion_locality", f"deserialize({wname}[str], {wd(3)!r}, conversion=int->str) = {a}, expected {exp!r}", object="leaf", direction="deserialize")
+        sys.modules.pop(m.__name__, None)
+        apischema.cache.reset()
+    _guard('locality of dynamic conversions', _sec_9)
+    st.count("special_worlds", 12)
 
 
 
